@@ -1,5 +1,7 @@
 SPECIFICATION Spec
 CONSTANT ReownAtApply = TRUE
+CONSTANT ResetTracking = TRUE
+CONSTANT ItemWritesBack = FALSE
 CONSTANT MaxOps = 7
 INVARIANT OwnedByApplied
 PROPERTY HistoryFree
